@@ -386,10 +386,39 @@ def add_long_named_request(doc: Dict[str, Any], rnd: random.Random) -> str:
     return f"add_long_named_request:{n}"
 
 
+def add_case_collisions(doc: Dict[str, Any], rnd: random.Random) -> str:
+    """Names that differ in the model but collide after a target language's case conversion
+    (fooBar / foo_bar / FooBar / $/fooBar): ties must be broken by the model, not by the process."""
+    tag = _fresh(rnd, "")
+    stem = rnd.choice(["fooBar", "didOpen", "workDone", "valueSet"]) + tag
+    snake = "".join("_" + c.lower() if c.isupper() else c for c in stem)
+    structs = [s["name"] for s in doc["structures"]]
+    if not structs:
+        add_structure(doc, rnd)
+        structs = [s["name"] for s in doc["structures"]]
+    st = rnd.choice(structs)
+    how = rnd.choice(["methods", "methods", "enum", "props"])
+    if how == "methods":
+        spellings = [f"sim/{stem}", f"sim/{snake}", f"$/sim/{stem}", f"sim/{stem[0].upper() + stem[1:]}"]
+        rnd.shuffle(spellings)
+        for i, m in enumerate(spellings[: rnd.randint(2, 4)]):
+            if rnd.random() < 0.5:
+                doc["notifications"].append({"method": m, "typeName": f"SimCollide{tag}N{i}Notification", "messageDirection": "both", "params": _r(st)})
+            else:
+                doc["requests"].append({"method": m, "typeName": f"SimCollide{tag}R{i}Request", "messageDirection": "both", "params": _r(st), "result": _b("null")})
+    elif how == "enum":
+        doc["enumerations"].append({"name": f"SimCollide{tag}", "type": _b("string"),
+                                    "values": [{"name": stem, "value": "a"}, {"name": stem[0].upper() + stem[1:], "value": "b"}, {"name": snake, "value": "c"}]})
+    else:
+        doc["structures"].append({"name": f"SimCollideProps{tag}", "properties": [{"name": stem, "type": _b("string")}, {"name": snake, "type": _b("string"), "optional": True}]})
+    return f"add_case_collisions:{how}"
+
+
 SAFE_EDITS: List[Callable[[Dict[str, Any], random.Random], str]] = [
     add_structure, add_enumeration, add_enum_member, add_request, add_notification, drop_message, add_property,
     add_rich_structure, add_rich_structure, add_rich_structure, add_alias, add_rich_request, add_bare_notification, add_enum_and_user,
     add_inheritance_conflict, add_inheritance_conflict, add_twin_literals, add_twin_enums, add_long_named_request,
+    add_case_collisions, add_case_collisions,
 ]
 
 
